@@ -51,6 +51,10 @@ func (d caseDesc) mode() string {
 // truth is the admission truth table written from the property statement.
 func truth(d caseDesc) bool {
 	serverOK := d.Insecure || d.ServerCert == "match"
+	if d.Host == "(none)" {
+		// an upstream address without a host part has no name a certificate could match: only insecure mode connects
+		serverOK = d.Insecure
+	}
 	clientOK := !d.Require || d.ClientCert == "own"
 	return serverOK && clientOK
 }
@@ -60,7 +64,11 @@ func runCase(d caseDesc) (established bool, targetBytes int, problem string, inc
 	defer tgt.Close()
 	pki := vlib.GetPKI()
 	host := d.Host
-	sc := vlib.ServerCertFor(d.ServerCert, host)
+	certHost := host
+	if host == "(none)" {
+		certHost = "localhost"
+	}
+	sc := vlib.ServerCertFor(d.ServerCert, certHost)
 	cfg := vlib.PairConfig{Carrier: d.Carrier, ServerCert: &sc, ClientCA: pki.CA.CertPEM, ClientInsecure: d.Insecure,
 		RequireClient: d.Require, ServerCA: pki.CA.CertPEM, HostSpelling: host, MustSecure: true,
 		Channels:  []vlib.ChannelSpec{{Name: "data", Target: tgt.URL()}},
@@ -128,13 +136,22 @@ func allCases(withDNS bool) []caseDesc {
 		if car == vlib.CarDNS {
 			hosts = []string{"example.org"}
 		}
+		if car == vlib.CarTCP || car == vlib.CarUDP {
+			// the host-less spelling of a StartTLS upstream (tcp://:port, udp://:port)
+			hosts = append(hosts, "(none)")
+		}
 		for _, host := range hosts {
 			for _, sc := range []string{"match", "wronghost", "untrusted", "expired"} {
 				for _, ins := range []bool{false, true} {
 					ccs := []string{"none", "own", "foreign"}
-					if sc == "match" && host != "127.0.0.1" {
+					if sc == "match" && host == "localhost" {
 						// a certificate of a foreign CA that the client really presents, and an expired one of the right CA
 						ccs = append(ccs, "foreign-presented", "own-expired")
+					}
+					if host == "(none)" {
+						// the host-less spelling is about the server certificate only
+						out = append(out, caseDesc{Carrier: car, ServerCert: sc, Insecure: ins, ClientCert: "none", Host: host})
+						continue
 					}
 					for _, cc := range ccs {
 						for _, req := range []bool{false, true} {
@@ -163,6 +180,11 @@ func judge(t *testing.T, d caseDesc) bool {
 	labels := []string{"carrier:" + d.Carrier, "mode:" + d.mode(), "server-cert:" + d.ServerCert, "client-cert:" + d.ClientCert, fmt.Sprintf("expect-admit:%v", want)}
 	vlib.Rec.Case(fmt.Sprintf("%+v", d), nontrivial, labels, func() interface{} { return d })
 	msg := problem
+	if d.Host == "(none)" && want && !est {
+		// a host-less address need not be connectable at all (a datagram upstream cannot dial ":port"); the spelling is
+		// judged for what it must never do only
+		want = est
+	}
 	if msg == "" && est != want {
 		if want {
 			msg = fmt.Sprintf("session NOT established although the truth table admits it (server certificate %s for %q chains to the configured CA, client certificate %s, require=%v, insecure=%v)", d.ServerCert, d.Host, d.ClientCert, d.Require, d.Insecure)
